@@ -67,6 +67,29 @@ def opHistory (a : Json) : Json :=
       (r.1, Json.mkObj [("res", resJson r.2), ("state", cellsToJson r.1.cells)] :: outs)) (s0, [])
   Json.arr outs.reverse.toArray
 
+/-- a history that may cross the version gate, on a fresh `Images()`:
+ops `["add", variant, arch, id, image] | ["dumps"] | ["set_version", v] | ["loads", doc]`; after every step the
+result, the header version and the cells; the history ends at a failed `loads` -/
+def opXHistory (a : Json) : Json :=
+  let ops := getArr a "ops"
+  let rec go (s : ImgState) (k : Nat) : List Json → List Json
+    | [] => []
+    | o :: rest =>
+      let parts := arr o
+      let kind := match parts.head? with | some (.str x) => x | _ => ""
+      let hop : HOp :=
+        if kind == "add" then
+          .add ⟨strOf (parts.getD 1 .null), strOf (parts.getD 2 .null), natOf (parts.getD 3 .null), imageOfPy (toPy (parts.getD 4 .null))⟩
+        else if kind == "dumps" then .dumps
+        else if kind == "set_version" then .setVersion (toPy (parts.getD 1 .null))
+        else .loads (toPy (parts.getD 1 .null)) (1000 * (k + 1))
+      let r := hstep s hop
+      let out := Json.mkObj [("res", resJson r.2), ("version", ofPy r.1.version), ("state", cellsToJson r.1.cells)]
+      match kind, r.2 with
+      | "loads", .error _ => [out]
+      | _, _ => out :: go r.1 (k + 1) rest
+  Json.arr (go { compose := composeOfPy (toPy (get a "compose")) } 0 ops).toArray
+
 def opDumps (a : Json) : Json :=
   let r := dumps (stateOfJson (get a "state"))
   match r.2 with
@@ -98,7 +121,7 @@ def opIdentify (a : Json) : Json :=
   | .error _ => Json.arr ((identifyObj (imageOfPy (toPy (get a "image")))).map ofPy).toArray
 
 def ops : List (String × (Json → Json)) :=
-  [("images_history", opHistory), ("images_dumps", opDumps), ("images_loads", opLoads), ("images_cycle", opCycle),
+  [("images_history", opHistory), ("images_xhistory", opXHistory), ("images_dumps", opDumps), ("images_loads", opLoads), ("images_cycle", opCycle),
    ("images_identify", opIdentify),
    ("images_image_roundtrip", fun a =>
       let ver := toPy (get a "version")
